@@ -13,10 +13,11 @@ from pgverif.monitors import genoref as G
 TIERS = {
     'quick': dict(shards=8, max_dnas=6, family_stride=4, random=28, dnas=4,
                   iter_max=24, corrupt=2, max_nodes=45, history=6,
-                  family_history=3, timeout_s=600),
+                  family_history=3, grid_stride=2, timeout_s=600),
     'thorough': dict(shards=16, max_dnas=24, family_stride=1, random=190,
                      dnas=8, iter_max=60, corrupt=3, max_nodes=60, history=8,
-                     family_history=3, timeout_s=3000, case_timeout_s=300),
+                     family_history=3, grid_stride=1, timeout_s=3000,
+                     case_timeout_s=300),
 }
 RULE = ('case = one template description (gen/templates.py) with a `where` '
         'filter. Part 1: the bounded family of search-space descriptions of '
@@ -34,7 +35,10 @@ RULE = ('case = one template description (gen/templates.py) with a `where` '
         'inside or just outside the bounds (the reference knows whether the '
         'range fits: a misfit may be refused at binding, else a member that '
         'decodes outside the spec is decoded first); evolvable placeholders '
-        'whose node_transform changes the value. DNAs: all members of spaces with <= '
+        'whose node_transform changes the value. Part 3: the bounded grid of '
+        'boundary bindings gen/templates.bound_grid (bound value x lower/upper x '
+        'range end just outside / outside / on / inside x floatv / oneof / manyof; '
+        'every `grid_stride`-th one, rotated by the seed). DNAs: all members of spaces with <= '
         '`dnas` members, else `dnas` reference-sampled members. Every DNA: '
         'decode twice, compare with the reference decoder, field rules, '
         'mutate one result, encode, materialize; every template: pg.iter, '
@@ -89,8 +93,21 @@ def my_part(ctx):
   return family(ctx)[ctx.shard::ctx.nshards]
 
 
+_GRID = {}
+
+
+def my_grid(ctx):
+  """This shard's part of the boundary-binding grid (every `grid_stride`-th
+  one, rotated by the seed)."""
+  key = (ctx.params['grid_stride'], ctx.seed, ctx.shard, ctx.nshards)
+  if key not in _GRID:
+    stride = max(1, int(ctx.params['grid_stride']))
+    _GRID[key] = TT.bound_grid()[ctx.seed % stride::stride][ctx.shard::ctx.nshards]
+  return _GRID[key]
+
+
 def cases(ctx):
-  return len(my_part(ctx)) + int(ctx.params['random'])
+  return len(my_part(ctx)) + len(my_grid(ctx)) + int(ctx.params['random'])
 
 
 # --------------------------------------------------------------------------
@@ -1011,11 +1028,15 @@ def run_case(ctx, i):
   c = ctx.counters
   part = my_part(ctx)
   plain = bad = False
+  grid = my_grid(ctx)
   if i < len(part):
     c['family_cases'] += 1
     T, _ = TT.from_space(part[i], rng, tags=True)
     W = TT.random_where(rng, T) if rng.random() < 0.25 else TT.ALL
     kind = 'family'
+  elif i < len(part) + len(grid):
+    c['grid_cases'] += 1
+    T, W, kind = grid[i - len(part)], TT.ALL, 'grid'
   else:
     c['random_cases'] += 1
     T, W, plain, bad, kind = random_case(ctx, rng)
@@ -1103,7 +1124,8 @@ def run_case(ctx, i):
       alive = False
       break
   alive = (alive and check_history(
-      ctx, cs, members, ctx.params['family_history' if kind == 'family' else 'history']))
+      ctx, cs, members,
+      ctx.params['family_history' if kind in ('family', 'grid') else 'history']))
   alive = (alive and check_iter(ctx, cs, all_members) is not False
            and check_random(ctx, cs) is not False
            and check_nonmembers(ctx, cs, members))
@@ -1116,7 +1138,7 @@ def run_case(ctx, i):
     ctx.mark_nontrivial(TT.show(T) + ' / ' + TT.show_where(W))
   ctx.seen('sizes', cs.size)
   ctx.seen('spaces', S.show(cs.space))
-  if i < 2 or (i >= len(part) and i < len(part) + 2):
+  if i in (0, len(part) + len(grid), len(part) + len(grid) + 1):
     ctx.sample({'template': TT.show(T), 'where': TT.show_where(W), 'size': cs.size,
                 'distinguishable': cs.dist,
                 'first_dna': repr(cs.dna(members[0])) if members else None,
